@@ -874,7 +874,7 @@ var Engine = &core.Engine{
 	Level: "exploration",
 	Rule: "per case one random data graph (raw-SQL inserted) in one of five worlds of the same relation family - key = string | integer | string+string | integer+string | integer+integer (composite worlds 6 of 8 cases) - " +
 		"with self-referential belongs-to/has-many, has-many + belongs-to back, has-one, many2many (composite join keys on both sides), polymorphic (single-key worlds); key parts drawn from hostile pools ('_' ',' spaces, 'nil', '0', '', leading zeros, clusters (s1,s2_s3)/(s1_s2,s3) that collide only after joining), " +
-		"foreign keys existing / dangling (preferably re-splits of an existing key) / NULL / partially NULL / zero part, soft-deleted rows in every soft-delete table; x 8 operations: Preload of 1-3 random relation paths of depth 1-3 (conditions as args, map, scope function, scope with Order), Preload(clause.Associations) (+condition, +nested path), " +
+		"foreign keys existing / dangling (preferably re-splits of an existing key) / NULL / partially NULL / zero part, soft-deleted rows in every soft-delete table; each graph is biased by one of four profiles (clean | separator clusters | partial NULL next to the text 'nil' | integer part 0) and the hazards it really carries are measured per relation, so a mismatch is signed composite-key-collision / null-part-vs-nil-text / zero-int-key-part only when that is the single hazard of the relations involved (hazard-free relations must match exactly: signature mismatch:*); x 8 operations: Preload of 1-3 random relation paths of depth 1-3 (conditions as args, map, scope function, scope with Order), Preload(clause.Associations) (+condition, +nested path), " +
 		"Joins/InnerJoins of 1-2 single-valued paths of depth 1-3 (+ON condition) combined with Preloads below/next to them, Association(rel).Find (+conditions) into []T/[]*T; parents into struct (First), []T, []*T, optionally every parent twice in the result; " +
 		"distinct = (world, operation kind, root, relation paths with condition forms, destination, duplicate flag, attached-children bucket); non-trivial = at least one child row was attached where the reference join expects it",
 	Assumptions: []string{
